@@ -35,11 +35,24 @@ class Hang(BaseException):
     pass
 
 
+class Abort(Exception):
+    """enough non-terminating inputs were found: stop generating (each one costs a full alarm)"""
+
+
+HANGS = [0]
+
+
+def note_hang(ctx):
+    HANGS[0] += 1
+    if HANGS[0] >= 3:
+        raise Abort()
+
+
 def _alarm(signum, frame):
     raise Hang()
 
 
-def timed(fn, *a, seconds=5.0):
+def timed(fn, *a, seconds=2.0):
     """run fn under an alarm; returns value | 'ERR <Class>' | 'HANG'"""
     old = signal.signal(signal.SIGALRM, _alarm)
     signal.setitimer(signal.ITIMER_REAL, seconds)
@@ -302,6 +315,8 @@ def check_canonical(ctx, mb, x: bytes, exp, origin):
     inp = {"op": "parse", "buffer": x.hex(), "origin": origin}
     if ds is None:
         ctx.fail("parse-raises" if line != "HANG" else "parse-hangs", inp, f"from_bytes raised {line} on a canonical buffer", expected="documents", actual=line)
+        if line == "HANG":
+            note_hang(ctx)
         return (f"lrrp.parse {hx(x)}", line)
     if exp is not None and len(ds) != len(exp):
         ctx.fail("document-count", inp, f"{len(ds)} documents parsed, {len(exp)} written", expected=len(exp), actual=len(ds))
@@ -557,6 +572,7 @@ def check_malformed(ctx, mb, x: bytes, origin):
     inp = {"op": "parse", "buffer": x.hex(), "origin": origin}
     if line == "HANG" or "HANG" in line:
         ctx.fail("parse-hangs", inp, "from_bytes / as_bytes did not terminate within the per-case alarm", actual=line)
+        note_hang(ctx)
     elif ds is not None and walk_lengths(x) != len(ds):
         ctx.fail("consumed", inp, "a successful parse did not consume exactly the announced document lengths",
                  expected=walk_lengths(x), actual=len(ds))
@@ -581,6 +597,14 @@ def correspond(ctx, component, pairs):
 
 
 def run(ctx):
+    HANGS[0] = 0
+    try:
+        _run(ctx)
+    except Abort:
+        ctx.notes.append("three inputs did not terminate within the alarm: generation stopped early")
+
+
+def _run(ctx):
     logging.disable(logging.CRITICAL)
     mb, LRRP = mods()
     mb.MBXML.DEBUG = False
@@ -591,7 +615,7 @@ def run(ctx):
         "fraction, sign-septet boundaries), constant table default / inline (0,2..200 octets) / inherited; written by "
         "the generator's own encoder.  Corpus first: every buffer of the LRRP/MBXML tests and the historically failing "
         "buffers.  Token API: 0-8 get_token calls by name or id with typed boundary values and attribute dicts.  "
-        "Malformed: every truncation of corpus/generated buffers, byte mutations, random octets, each under a 5 s alarm.  "
+        "Malformed: every truncation of corpus/generated buffers, byte mutations, random octets, each under a 2 s alarm.  "
         "A case is non-trivial unless the buffer is empty; distinct = distinct buffers / API call sequences."
     )
     ctx.trusted_base += [
